@@ -44,16 +44,6 @@ var (
 	juxtaposedRe       = regexp.MustCompile(`\}[ \t\n]*\{`)
 	literalKeyRe       = regexp.MustCompile(`\{[^{}]*\}([ \t\n]*:)`)
 	extendsStmtRe      = regexp.MustCompile(`\{%[ \t\n]*extends\b[^%]*%\}`)
-	moduleRe           = regexp.MustCompile(`(?m)^[ \t]*module[ \t]+([^ \t\n;]+)`)
-	importPathRe       = regexp.MustCompile("(?:\\bimport\\b|[(;\\n])[ \\t]*(?:[A-Za-z_.][A-Za-z0-9_]*[ \\t]*)?[\"`]([^\"`\\n]*)[\"`]")
-	identOnlyRe        = regexp.MustCompile(`^[A-Za-z_][A-Za-z0-9_]*$`)
-	ifaceVarRe         = regexp.MustCompile(`\b([A-Za-z_][A-Za-z0-9_]*)[ \t]*:=[ \t]*(?:nat\.)?(?:FI\(\)|Iv|NilI|Err)|\bvar[ \t]+([A-Za-z_][A-Za-z0-9_]*)[ \t]+(?:(?:nat\.)?I\b|interface[ \t]*\{[ \t]*[A-Za-z_])`)
-	importNameRe       = regexp.MustCompile("\\bimport[ \\t]+([A-Za-z_][A-Za-z0-9_]*)[ \\t]*[\"`]|\\bimport[ \\t]*[\"`](?:[^\"`/]*/)*([A-Za-z_][A-Za-z0-9_]*)[\"`]")
-	nilFuncConvRe      = regexp.MustCompile(`(?:\([ \t]*func\b[^{};]*?\)|\bmacro\b[^{};]*?)[ \t]*\([ \t]*nil[ \t]*\)`)
-	variadicCalleeRe   = regexp.MustCompile(`\b(println|print|append|FV|FVF)[ \t]*\(`)
-	funcDeclRe         = regexp.MustCompile(`\b(?:func|macro)[ \t]+([A-Za-z_][A-Za-z0-9_]*)[ \t]*[(%]`)
-	funcDeclUseRe      = regexp.MustCompile(`\b(?:func|macro)[ \t]+[A-Za-z_][A-Za-z0-9_]*`)
-	anyIdentRe         = regexp.MustCompile(`[A-Za-z_][A-Za-z0-9_]*`)
 	defaultCalleeRe    = regexp.MustCompile(`\([^()]*\)[ \t]*default\b`)
 	plainCalleeRe      = regexp.MustCompile(`^(?:[A-Za-z_][A-Za-z0-9_]*|\([ \t]*[A-Za-z_][A-Za-z0-9_]*[ \t]*\)|render[ \t].*)?$`)
 	defaultTailRe      = regexp.MustCompile(`[ \t]*\bdefault\b[^}%]*`)
@@ -114,138 +104,6 @@ var findingClasses = []findingClass{
 			return nil, false
 		}
 		return literalKeyRe.ReplaceAll(juxtaposedRe.ReplaceAll(src, []byte("},{")), []byte("0$1")), true
-	}},
-	{id: "missing-sibling-import-panics", neutralCase: func(b lexh.BuildCase) (lexh.BuildCase, bool) {
-		// prediction: a package file of a module imports, before its last import of a package of the module, a package
-		// of the module that has no Go file (ParseProgram then looks for the importing file in a sibling that is not
-		// parsed yet); neutralised by giving every such package an empty source file
-		mod := moduleRe.FindSubmatch(b.Files["go.mod"])
-		if mod == nil || !b.Program() {
-			return b, false
-		}
-		prefix := string(mod[1]) + "/"
-		exists := func(path string) bool {
-			dir := strings.TrimPrefix(path, prefix) + "/"
-			for n := range b.Files {
-				if strings.HasPrefix(n, dir) && strings.HasSuffix(n, ".go") && !strings.Contains(n[len(dir):], "/") {
-					return true
-				}
-			}
-			return false
-		}
-		nb := lexh.BuildCase{Kind: b.Kind, Entry: b.Entry, Files: map[string][]byte{}}
-		predicted := false
-		for n, d := range b.Files {
-			nb.Files[n] = d
-			if !strings.HasSuffix(n, ".go") {
-				continue
-			}
-			var paths []string
-			for _, m := range importPathRe.FindAllSubmatch(d, -1) {
-				if strings.HasPrefix(string(m[1]), prefix) {
-					paths = append(paths, string(m[1]))
-				}
-			}
-			for k, p := range paths {
-				if k+1 < len(paths) && !exists(p) {
-					predicted = true
-				}
-			}
-		}
-		if !predicted {
-			return b, false
-		}
-		for _, d := range b.Files {
-			for _, m := range importPathRe.FindAllSubmatch(d, -1) {
-				if p := string(m[1]); strings.HasPrefix(p, prefix) && !exists(p) {
-					dir := strings.TrimPrefix(p, prefix)
-					base := dir[strings.LastIndexByte(dir, '/')+1:]
-					if identOnlyRe.MatchString(base) {
-						nb.Files[dir+"/"+base+".go"] = []byte("package " + base + "\n")
-					}
-				}
-			}
-		}
-		return nb, true
-	}},
-	{id: "defer-interface-method-panics", neutral: func(src []byte) ([]byte, bool) {
-		// `defer v.M(…)` where v is a value of a native interface type: one of the interface-valued declarations of the
-		// native package nat, a variable initialised from one or declared with a non-empty interface type, or a type
-		// assertion to the native interface type; neutralised by calling without defer
-		names := []string{`(?:nat\.)?(?:Iv|NilI|Err|FI\(\))`, `[A-Za-z_][A-Za-z0-9_]*\.\((?:nat\.)?I\)`}
-		for _, m := range ifaceVarRe.FindAllSubmatch(src, -1) {
-			for _, g := range m[1:] {
-				if len(g) > 0 {
-					names = append(names, regexp.QuoteMeta(string(g)))
-				}
-			}
-		}
-		re := regexp.MustCompile(`\bdefer[ \t]+((?:` + strings.Join(names, "|") + `)\.[A-Za-z_][A-Za-z0-9_]*\()`)
-		if !re.Match(src) {
-			return nil, false
-		}
-		return re.ReplaceAll(src, []byte("$1")), true
-	}},
-	{id: "defer-package-function-panics", neutral: func(src []byte) ([]byte, bool) {
-		// `defer p.F(…)` where p is the name under which a Scriggo package or template file is imported
-		var names []string
-		for _, m := range importNameRe.FindAllSubmatch(src, -1) {
-			for _, g := range m[1:] {
-				if len(g) > 0 && string(g) != "nat" {
-					names = append(names, regexp.QuoteMeta(string(g)))
-				}
-			}
-		}
-		if len(names) == 0 {
-			return nil, false
-		}
-		re := regexp.MustCompile(`\bdefer[ \t]*(\(?(?:` + strings.Join(names, "|") + `)\.[A-Za-z_][A-Za-z0-9_]*\)?\()`)
-		if !re.Match(src) {
-			return nil, false
-		}
-		return re.ReplaceAll(src, []byte("$1")), true
-	}},
-	{id: "variadic-nil-func-conversion-panics", neutral: func(src []byte) ([]byte, bool) {
-		// a nil converted to a function or macro type, `(func(…) …)(nil)`, in a source with a variadic parameter or a call of
-		// a variadic builtin or native function; neutralised by
-		// the plain nil
-		if !nilFuncConvRe.Match(src) || !(strings.Contains(string(src), "...") || variadicCalleeRe.Match(src)) {
-			return nil, false
-		}
-		return nilFuncConvRe.ReplaceAll(src, []byte("nil")), true
-	}},
-	{id: "disassemble-function-index-panics", neutral: func(src []byte) ([]byte, bool) {
-		// prediction: more than 128 distinct functions or macros are declared (and called: a function whose table of
-		// called functions has an entry above 127 — the disassembler reads the 8-bit operand as signed); neutralised by
-		// making every call call the first of them
-		var names []string
-		seen := map[string]bool{}
-		for _, m := range funcDeclRe.FindAllSubmatch(src, -1) {
-			if n := string(m[1]); !seen[n] && n != "main" && n != "init" {
-				seen[n] = true
-				names = append(names, n)
-			}
-		}
-		if len(names) <= 128 {
-			return nil, false
-		}
-		out := anyIdentRe.ReplaceAllFunc(src, func(id []byte) []byte {
-			if seen[string(id)] {
-				return []byte(names[0])
-			}
-			return id
-		})
-		// the declarations keep their names: restore them in order
-		k := 0
-		out = funcDeclUseRe.ReplaceAllFunc(out, func(m []byte) []byte {
-			if k < len(names) && strings.HasSuffix(string(m), names[0]) {
-				r := string(m[:len(m)-len(names[0])]) + names[k]
-				k++
-				return []byte(r)
-			}
-			return m
-		})
-		return out, true
 	}},
 	{id: "default-non-identifier-call-panics", neutral: func(src []byte) ([]byte, bool) {
 		// `f(…) default e` where the callee f is not an identifier: anything but an identifier or a parenthesised identifier
